@@ -459,6 +459,41 @@ Section CheckProof.
   Definition check_proof (tp : proof) : res bytes := res_map fst (check_proof_src tp).
 End CheckProof.
 
+(** * Histories of calls on one Server
+    tonconnect.Server has no mutable state: a call is a function of the call itself, the
+    configuration, the executor's answer and the clock.  A history threads a server state
+    through the calls; the state of the model is [unit]. *)
+Fixpoint run_history {S C R} (step : S -> C -> S * R) (st : S) (calls : list C) : S * list R :=
+  match calls with
+  | [] => (st, [])
+  | c :: t =>
+      let '(st1, r) := step st c in
+      let '(st2, rs) := run_history step st1 t in
+      (st2, r :: rs)
+  end.
+
+(* one call of a history: the executor's answer, the clock and the proof *)
+Record call := mkCall { k_exec : Z * bytes -> exec_result; k_now : Z; k_proof : proof }.
+
+Section ServerHistory.
+  Variable H : bytes -> bytes.
+  Variable verify : bytes -> bytes -> bytes -> bool.
+  Variable hmac : bytes -> bytes -> bytes.
+  Variable b64 : bytes -> option bytes.
+  Variable boc : bytes -> res (list cell).
+  Variable lib_ok ext_ok : cell -> bool.
+  Variable known : known_table.
+  Variable secret domain : bytes.
+  Variable lt_proof lt_payload : Z.
+
+  Definition server_call (c : call) : res bytes :=
+    check_proof H verify b64 boc lib_ok ext_ok known (k_exec c)
+      (check_payload hmac secret lt_payload (k_now c)) (static_domain domain) lt_proof (k_now c) (k_proof c).
+
+  Definition server_step (st : unit) (c : call) : unit * res bytes := (st, server_call c).
+  Definition server_history (calls : list call) : list (res bytes) := snd (run_history server_step tt calls).
+End ServerHistory.
+
 (** * CreateSignedProof (client side) *)
 
 Definition create_signed_proof (H : bytes -> bytes) (sign : bytes -> bytes -> bytes)
